@@ -280,10 +280,36 @@ def w_doc(ctx, wid, seed):
             return
 
 
+def w_select_cli(ctx, wid, seed):
+    """--select through the real binary: the index of the referencing input selects it; anything that is not the index of an input referencing the funding
+    transaction (another input, an index beyond the inputs, a number with trailing junk, a negative or overflowing number) is refused"""
+    import random
+    rnd = random.Random(seed)
+    exe = cli.binpath('btcdeb')
+    for typ in ('p2pkh', 'p2wpkh', 'p2sh-multisig'):
+        c = S.build(rnd, typ, ninputs=3)
+        txh, inh, idx = c['tx'].ser().hex(), c['fund'].ser().hex(), c['idx']
+        other = (idx + 1) % 3
+        for val, ok in ((str(idx), True), (str(other), False), ('3', False), ('99', False), ('%dx' % idx, False), ('-1', False), ('-2', False), (str(2 ** 32 + idx), False), ('abc', False), ('', False), ('0x%d' % idx, False)):
+            r = cli.run(exe, ['--tx=' + txh, '--txin=' + inh, '--select=' + val], stdin=b'\n')
+            ctx.case('select-cli:%s:%s' % (typ, val), True, dict(type=typ, select=val, referencing_input=idx), 'select-cli')
+            if r.timed_out:
+                ctx.inconclusive += 1
+                continue
+            good = r.rc == 0 and r.out.strip().splitlines()[-1:] == [b'01']
+            if ok and not good:
+                ctx.violations.append(dict(campaign='select-cli', why='--select=%s names the input that spends the funding transaction (%s spend) but the session does not end with 01: rc=%s err=%r' % (val, typ, r.rc, r.err[-200:]), case=dict(type=typ, select=val), refails=3))
+                return
+            if not ok and (r.rc == 0 or r.abnormal):
+                ctx.violations.append(dict(campaign='select-cli', why='--select=%s is not the index of an input that references the funding transaction (that is input %d) but was not refused: rc=%s out=%r' % (val, idx, r.rc, r.out[-60:]),
+                                           case=dict(type=typ, select=val), refails=3))
+                return
+
+
 def run(tier, t0):
     W = core.WORKERS
     n = 1500 if tier == 'quick' else 20000
-    m = core.parallel(PID, [(w_doc, dict())] + [(w_spends, dict(examples=n)) for _ in range(W)])
+    m = core.parallel(PID, [(w_doc, dict()), (w_select_cli, dict())] + [(w_spends, dict(examples=n)) for _ in range(W)])
     cells = [k for k in m.counters if k.startswith('cell:')]
     if tier == 'thorough':
         # every output type must have been exercised valid and under every corruption that applies to it at least once
